@@ -335,7 +335,10 @@ def unweave(woven, linemap):
     return '\n'.join(out)
 
 
-def weave_all(repo_src, contracts_dir, spec_dir, out_dir, extra_blocks=None):
+HINT_DIRECTIVES = ('before', 'after', 'body-start', 'loop-body', 'loop-end')
+
+
+def weave_all(repo_src, contracts_dir, spec_dir, out_dir, extra_blocks=None, skip_hints_for=None):
     """Weave the whole crate.  returns a dict describing what was done (also written to out_dir/weave.json)."""
     if os.path.exists(out_dir):
         shutil.rmtree(out_dir)
@@ -349,6 +352,18 @@ def weave_all(repo_src, contracts_dir, spec_dir, out_dir, extra_blocks=None):
         info['normalisations'] += notes
         sc = os.path.join(contracts_dir, fname[:-3] + '.contract')
         blocks = parse_sidecar(sc) if os.path.exists(sc) else []
+        if skip_hints_for:
+            # degraded mode: a changed function can no longer carry its in-body proof hints; keep its contract and
+            # loop invariants only (instrumentation that defines ghost state, i.e. blocks marked KEEP, stays)
+            kept = []
+            for b in blocks:
+                if b.directive in HINT_DIRECTIVES and (fname, split_args(b.args)[0]) in skip_hints_for \
+                        and not any('KEEP' in l for l in b.lines):
+                    continue
+                kept.append(b)
+            blocks = kept
+            for k, b in enumerate(blocks):
+                b.bid = k
         if extra_blocks and fname in extra_blocks:
             # generated blocks go FIRST so that, at equal positions, they precede sidecar attributes
             gen = [Block(0, directive, args, lines, '<generated>', 0) for (directive, args, lines) in extra_blocks[fname]]
